@@ -32,7 +32,7 @@ pub enum Op {
 
 pub const BRANCHES: [&str; 10] = ["develop", "feature/x", "release/1", "fé/ü", "007", "hotfix/12/a", "release-2", "Feature/API-v2", "users/a+b@c", "1.2.3"];
 /// tag names: (name, valid semver, valid pep440)
-pub const TAGS: [&str; 43] = [
+pub const TAGS: [&str; 45] = [
     "1.0.0", "1.2.3", "v1.2.3", "2.0.0", "v2.0.0", "0.1.0", "10.20.30", "1.0.0-rc.1", "1.0.0-alpha.1", "v1.0.0-beta.2", "2.0.0-rc.1.post.3", "1.2.3+build.5",
     "3.0.0-alpha", "1.0", "1.0a1", "2!1.0", "1.0.post1", "1.0.0.dev3", "v3.1", "1.2.3.4", "3.0.0rc1", "01.02.03",
     "latest", "release-candidate", "foo", "v", "nightly-2024", "1.x", "v1.2.3.post1", "V1.2.3", "1.2.3-0123", "4.0.0-RC.1", "0.0.0", "1.10.0",
@@ -40,6 +40,8 @@ pub const TAGS: [&str; 43] = [
     "1.0.1-hotfix.final", "2.1.0-x.7.z.92", "1.0.0-0.3.7", "v5.0.0-snapshot", "0.9.0-x-y-z.--",
     // shapes other tools write: git describe, Maven, dated builds
     "1.2.3-5-gabc1234", "2.0.0-SNAPSHOT", "1.0.0+20240131", "v1.4.0-rc.2+build.20240131T120000Z",
+    // separator twins: 1.0-1 is 1.0.post1 (PEP 440 only), 1.0.1 is a release
+    "1.0-1", "1.0.1",
 ];
 
 #[derive(Debug, Clone)]
